@@ -70,13 +70,16 @@ def main():
     # ---- (b) objects from field values ---------------------------------------------------------------------------
     T1 = b"4b825dc642cb6eb9a060e54bf8d69288fbee4904"
     P1, P2, P3 = (bytes([c]) * 40 for c in b"abc")
-    IDENTS = [b"A U Thor <a@example.com>", b"\xc3\xa9\xff <x>", b" <>", b"N <e@x> extra> <z>"]
+    IDENTS = [b"A U Thor <a@example.com>", b"\xc3\xa9\xff <x>", b" <>", b"N <e@x> extra> <z>", b"C\rR <cr@x>"]
     TIMES = [0, 1, -1, 1234567890, 2 ** 31, 2 ** 63 - 1, -(2 ** 40)]
     ZONES = [(0, False), (0, True), (3600, False), (-7 * 3600, False), (5 * 3600 + 45 * 60, False), (-(12 * 3600 + 30 * 60), False), (99 * 3600 + 59 * 60, False)]
     MESSAGES = [b"", b"m", b"subject\n\nbody\n", b"\n\nleading blank", b" starts with space\n", b"no newline at end", b"x\n" * 3 + b"tree " + T1 + b"\n"]
     SIG = b"-----BEGIN PGP SIGNATURE-----\n\niQEz\n=abcd\n-----END PGP SIGNATURE-----"
     SSHSIG = b"-----BEGIN SSH SIGNATURE-----\nU1NI\n-----END SSH SIGNATURE-----"
-    EXTRAS = [[], [(b"x-custom", b"v")], [(b"x-multi", b"l1\nl2\n l3"), (b"x-empty", b"")], [(b"HG:rename-source", b"hg"), (b"x-custom", b"v")]]
+    EXTRAS = [[], [(b"x-custom", b"v")], [(b"x-multi", b"l1\nl2\n l3"), (b"x-empty", b"")], [(b"HG:rename-source", b"hg"), (b"x-custom", b"v")],
+              [(b"x-cr", b"a\rb\r\nc"), (b"x-trailing-empty-line", b"v\n")], [(b"x-ff", b"a\x0cb\x1cc\x85d")]]
+    SIG_TRAIL = SIG + b"\n"                           # old git/GitHub layout: the header ends in an empty continuation line
+    SIG_CRLF = SIG.replace(b"\n", b"\r\n")
 
     def mk_tag(name=b"v1", target=(Commit, P1), tagger=IDENTS[0], when=(1, (0, False)), message=b"msg\n", signature=None):
         t = Tag()
@@ -96,7 +99,7 @@ def main():
     CF = dict(tree=T1, parents=(), author=IDENTS[0], committer=IDENTS[0], author_time=1, commit_time=2, author_zone=(0, False), commit_zone=(3600, False),
               encoding=None, message=b"m\n", gpgsig=None, mergetag=(), extra=())
     DOM = dict(parents=[(), (P1,), (P1, P2), (P1, P2, P3)], author=IDENTS, committer=IDENTS[:2], author_time=TIMES, commit_time=TIMES[:3],
-               author_zone=ZONES, commit_zone=ZONES[:3], encoding=[None, b"ISO-8859-1"], message=MESSAGES + [None], gpgsig=[None, SIG, SSHSIG],
+               author_zone=ZONES, commit_zone=ZONES[:3], encoding=[None, b"ISO-8859-1"], message=MESSAGES + [None], gpgsig=[None, SIG, SSHSIG, SIG_TRAIL, SIG_CRLF],
                mergetag=[(), (MERGETAG,)], extra=[tuple(e) for e in EXTRAS])
 
     def mk_commit(f):
